@@ -191,3 +191,23 @@ Example C18_life_loss_example :
   evaluate true 1 1 [[c 1 true None]; [c 2 true (Some (3, 2))]] = ([mk_e 1 0 0], [(0%nat, (3, 2))], true) /\
   mon_consistent v0 [(c 1 true None, false); (c 2 true (Some (3, 2)), true)] = true.
 Proof. split; reflexivity. Qed.
+
+(* ---- load_results over several monitor files (seeded change C18_4): each file's rows are shifted by ITS OWN t_start ---- *)
+Theorem C18_load_results_merge : forall (A : Type) (files : list (@mfile A)),
+  Permutation.Permutation (sort_by_t (flat_map absolute_rows files)) (flat_map absolute_rows files) /\
+  Sorted.StronglySorted le_t (sort_by_t (flat_map absolute_rows files)).
+Proof. exact (fun A files => load_results_merge files). Qed.
+Print Assumptions C18_load_results_merge.
+
+Theorem C18_load_results_chronological : forall (A : Type) (l : list (Z * A)),
+  Sorted.StronglySorted (fun a b => fst a < fst b) l -> sort_by_t l = l.
+Proof. exact (fun A l => sort_sorted_id l). Qed.
+Print Assumptions C18_load_results_chronological.
+
+From Coq Require Import String.
+Example C18_load_results_example :
+  (* file 1 starts at 1000 with episodes at +5 and +30; file 2 starts at 1020 with episodes at +2 and +4: chronological = a, c, d, b.
+     (sorting by the relative times, as the seeded change does, would give c, d, a, b) *)
+  load_results_model [(1000, [(5, "a"%string); (30, "b"%string)]); (1020, [(2, "c"%string); (4, "d"%string)])]
+  = ["a"%string; "c"%string; "d"%string; "b"%string].
+Proof. reflexivity. Qed.
